@@ -29,6 +29,13 @@
 //  * `Elf::parse(bytes)`: deterministic function of the byte slice: `parse_ok(bytes)` says whether
 //    it succeeds and `parsed(bytes)` is the image it returns.  NOTHING is assumed about the relation
 //    between the bytes and the parsed fields (the correctness of goblin's parser is out of scope).
+//  * (added for the linker, lib/loader/elf/elf_linker.rs) further fields of `elf::Elf<'a>`: `dynrelas`, `dynrels`
+//    (RelocSection, as `pltrelocs`), `dynamic: Option<dynamic::Dynamic>` with `Dynamic { dyns: Vec<Dyn> }` and
+//    `Dyn { d_tag: u64, d_val: u64 }` (goblin's unified view; its `info: DynamicInfo` field is not read by falcon and
+//    is omitted), `interpreter: Option<&'a str>`; `Strtab::get_at(i)` = Some(the string at offset i) whenever
+//    `tab[i]` would succeed (goblin binary-searches its pre-parsed (offset, string) list and slices the string that
+//    covers the offset; for an offset where `tab[i]` panics NOTHING is assumed about the result); relocation type
+//    numbers R_386_* and R_MIPS_REL32 and DT_PLTGOT = 3 (goblin/src/elf/{constants_relocation,dynamic}.rs).
 //  * constants: PT_LOAD = 1, PF_X = 1, PF_W = 2 (`1 << 1`), PF_R = 4 (`1 << 2`), STB_LOCAL = 0,
 //    STB_GLOBAL = 1, STB_WEAK = 2, STT_FUNC = 2, EM_* (goblin/src/elf/{program_header,sym,constants_header}.rs).
 // ======================================================================================
@@ -58,6 +65,14 @@ pub mod strtab {
         pub uninterp spec fn valid_at(&self, i: usize) -> bool;
         /// the string that starts at byte offset `i`
         pub uninterp spec fn name_at(&self, i: usize) -> Seq<char>;
+    }
+
+    impl<'a> Strtab<'a> {
+        /// goblin: "Safely gets a str reference from the parsed table by offset"
+        #[verifier::external_body]
+        pub fn get_at(&self, i: usize) -> (r: Option<&'a str>)
+            ensures self.valid_at(i) ==> (r matches Some(s) && s@ == self.name_at(i)),
+        { unimplemented!() }
     }
 
     impl<'a> vstd::std_specs::core::IndexSpecImpl<usize> for Strtab<'a> {
@@ -163,6 +178,17 @@ pub mod elf {
     pub mod reloc {
         use vstd::prelude::*;
         verus! {
+        pub const R_386_32: u32 = 1;
+        pub const R_386_GOT32: u32 = 3;
+        pub const R_386_PLT32: u32 = 4;
+        pub const R_386_COPY: u32 = 5;
+        pub const R_386_GLOB_DAT: u32 = 6;
+        pub const R_386_JMP_SLOT: u32 = 7;
+        pub const R_386_RELATIVE: u32 = 8;
+        pub const R_386_GOTPC: u32 = 10;
+        pub const R_386_TLS_TPOFF: u32 = 14;
+        pub const R_386_IRELATIVE: u32 = 42;
+        pub const R_MIPS_REL32: u32 = 3;
         pub struct Reloc {
             pub r_offset: u64,
             pub r_addend: Option<i64>,
@@ -170,6 +196,20 @@ pub mod elf {
             pub r_type: u32,
         }
         pub type RelocSection = Vec<Reloc>;
+        }
+    }
+
+    pub mod dynamic {
+        use vstd::prelude::*;
+        verus! {
+        pub const DT_PLTGOT: u64 = 3;
+        pub struct Dyn {
+            pub d_tag: u64,
+            pub d_val: u64,
+        }
+        pub struct Dynamic {
+            pub dyns: Vec<Dyn>,
+        }
         }
     }
 
@@ -184,6 +224,10 @@ pub mod elf {
         pub syms: sym::Symtab,
         pub strtab: super::strtab::Strtab<'a>,
         pub pltrelocs: reloc::RelocSection,
+        pub dynrelas: reloc::RelocSection,
+        pub dynrels: reloc::RelocSection,
+        pub dynamic: Option<dynamic::Dynamic>,
+        pub interpreter: Option<&'a str>,
     }
 
     /// goblin accepts these bytes as an ELF file
